@@ -707,10 +707,34 @@ func c20Encoded(c *Ctx) {
 			}
 			return true
 		})
-		if table == nil {
-			return nil
-		}
 		set := map[string]bool{}
+		// the table may also be built in place, or the helper may be a chain of strings.ReplaceAll
+		ast.Inspect(d.Decl.Body, func(n ast.Node) bool {
+			call, ok := n.(*ast.CallExpr)
+			if !ok {
+				return true
+			}
+			fn := Callee(d.Info(), call)
+			switch {
+			case calleeIs(fn, "strings", "NewReplacer"):
+				for k := 0; k+1 < len(call.Args); k += 2 {
+					if tv, ok := d.Info().Types[call.Args[k]]; ok && tv.Value != nil {
+						set[constant.StringVal(tv.Value)] = true
+					}
+				}
+			case calleeIs(fn, "strings", "ReplaceAll") && len(call.Args) == 3:
+				if tv, ok := d.Info().Types[call.Args[1]]; ok && tv.Value != nil {
+					set[constant.StringVal(tv.Value)] = true
+				}
+			}
+			return true
+		})
+		if table == nil {
+			if len(set) == 0 {
+				return nil
+			}
+			return set
+		}
 		for _, f := range d.Pkg.Syntax {
 			ast.Inspect(f, func(n ast.Node) bool {
 				vs, ok := n.(*ast.ValueSpec)
